@@ -7,8 +7,19 @@ HERE = os.path.dirname(os.path.abspath(__file__))
 SRC = os.path.join(HERE, "harness.cpp")
 
 
-def build():
-    return vlib.compile_cxx(SRC, "c15", std="c++14", opt="-O2", san="none")
+WIDE = os.path.join(HERE, "wide.cpp")
+DIALECTS = ["c++17", "c++20"]      # besides the default c++14
+GNU = ["gnu++14", "gnu++20"]
+
+
+def build(std="c++14"):
+    if std == "c++14":
+        return vlib.compile_cxx(SRC, "c15", std="c++14", opt="-O2", san="none")
+    return vlib.compile_cxx(SRC, "c15-" + std.replace("+", "x"), std=std, opt="-O2", san="none", defines=['C15_TAG="[%s]"' % std])
+
+
+def build_wide(std):
+    return vlib.compile_cxx(WIDE, "c15-wide-" + std.replace("+", "x"), std=std, opt="-O1", san="none", defines=['C15_TAG="[%s]"' % std])
 
 
 TYPES = [("int8_t", True, 8, "std::int8_t"), ("uint8_t", False, 8, "std::uint8_t"), ("int16_t", True, 16, "std::int16_t"), ("uint16_t", False, 16, "std::uint16_t"),
@@ -16,6 +27,9 @@ TYPES = [("int8_t", True, 8, "std::int8_t"), ("uint8_t", False, 8, "std::uint8_t
          ("char", True, 8, "char"), ("long long", True, 64, "long long"), ("unsigned long long", False, 64, "unsigned long long")]
 FUNCS = [("cmp_equal", lambda a, b: a == b), ("cmp_not_equal", lambda a, b: a != b), ("cmp_less", lambda a, b: a < b),
          ("cmp_greater", lambda a, b: a > b), ("cmp_less_equal", lambda a, b: a <= b), ("cmp_greater_equal", lambda a, b: a >= b)]
+
+
+TYPES128 = [("int128", True, 128, "__int128"), ("uint128", False, 128, "unsigned __int128")]
 
 
 def _vals(signed, bits):
@@ -27,14 +41,22 @@ def _vals(signed, bits):
 def _lit(cxx, signed, bits, v):
     if signed and v == -(1 << (bits - 1)):
         return "std::numeric_limits<%s>::min()" % cxx
+    if bits == 128:
+        if v == (1 << (127 if signed else 128)) - 1:
+            return "std::numeric_limits<%s>::max()" % cxx
+        return "static_cast<%s>(%d)" % (cxx, v)
     return "static_cast<%s>(%d%s)" % (cxx, v, "ULL" if not signed else "LL")
 
 
-def constexpr_cases():
-    """Every function x ordered type pair x sign/extreme class of both operands: (case id, static_assert line)."""
+def constexpr_cases(wide=False):
+    """Every function x ordered type pair x sign/extreme class of both operands: (case id, static_assert line).
+    wide: the pairs that involve a 128-bit type (GNU dialects only)."""
     cases = []
-    for (tn, ts, tb, tc) in TYPES:
-        for (un, us, ub, uc) in TYPES:
+    all_types = TYPES + (TYPES128 if wide else [])
+    for (tn, ts, tb, tc) in all_types:
+        for (un, us, ub, uc) in all_types:
+            if wide and tb != 128 and ub != 128:
+                continue
             for (fn, f) in FUNCS:
                 for (an, av) in _vals(ts, tb):
                     for (bn, bv) in _vals(us, ub):
@@ -45,20 +67,24 @@ def constexpr_cases():
     return cases
 
 
-def constexpr_part(ctx, only=None):
+def constexpr_part(ctx, only=None, wide=False):
     """Usable in constant expressions: one generated TU with one static_assert per case and line; every failing line is a violation."""
     import subprocess
-    cases = constexpr_cases()
+    cases = constexpr_cases(wide)
     if only is not None:
         cases = [c for c in cases if c[0] == only]
+        if not cases:
+            return
     gen = os.path.join(vlib.VERIF, "build", "c15gen")
     os.makedirs(gen, exist_ok=True)
-    src = os.path.join(gen, "constexpr_cases%s.cpp" % ("" if only is None else "_one"))
+    src = os.path.join(gen, "constexpr_cases%s%s.cpp" % ("_wide" if wide else "", "" if only is None else "_one"))
     head = ["#include <xtl/xcompare.hpp>", "#include <cstdint>", "#include <limits>"]
     with open(src, "w") as f:
         f.write("\n".join(head) + "\n" + "\n".join(c[1] for c in cases) + "\nint main() { return 0; }\n")
     first = len(head) + 1
-    configs = [("g++", "c++14"), ("g++", "c++17"), ("clang++", "c++14"), ("clang++", "c++17")]
+    configs = [("g++", "c++14"), ("g++", "c++17"), ("g++", "c++20"), ("clang++", "c++14"), ("clang++", "c++17"), ("clang++", "c++20")]
+    if wide:
+        configs = [("g++", "gnu++14"), ("g++", "gnu++20"), ("clang++", "gnu++14")]
 
     def one(cfg):
         cxx, std = cfg
@@ -95,24 +121,44 @@ def constexpr_part(ctx, only=None):
 
 def run(ctx):
     constexpr_part(ctx)
+    constexpr_part(ctx, wide=True)
     binary = build()
     full_bits = "24" if ctx.tier == "quick" else "32"
     n = 121 if ctx.tier == "thorough" else 16
     jobs = [(lambda k=k: ctx.run_harness(binary, ["--shard", str(k), str(n), "--full-bits", full_bits], tag="c15"))
             for k in range(n)]
+    # the other language dialects (the header may select other code, e.g. by feature-test macros): all 8-bit pairs exhaustively
+    # plus the boundary products (quick), the same bounds as the default dialect (thorough)
+    others = vlib.parallel([(lambda d=d: build(d)) for d in DIALECTS])
+    fb2, n2 = ("16", 4) if ctx.tier == "quick" else (full_bits, 32)
+    for d, b in zip(DIALECTS, others):
+        jobs += [(lambda k=k, b=b, d=d: ctx.run_harness(b, ["--shard", str(k), str(n2), "--full-bits", fb2], tag="c15-" + d)) for k in range(n2)]
+    wides = vlib.parallel([(lambda d=d: build_wide(d)) for d in GNU])
+    jobs += [(lambda b=b, d=d: ctx.run_harness(b, [], tag="c15-wide-" + d)) for d, b in zip(GNU, wides)]
     vlib.parallel(jobs)
     ctx.rule = ("all 121 ordered pairs of {int8,uint8,int16,uint16,int32,uint32,int64,uint64,char,long long,unsigned long long} x 6 functions; "
                 "ALL value pairs when bits(T)+bits(U) <= %s, otherwise (all values of a <=16-bit side x boundary alphabet of the other) and boundary x boundary "
                 "with boundary = {min,min+1,-1,0,1,2,max-1,max, +-2^k-1, +-2^k, +-2^k+1 : k in 7,8,15,16,31,32,63}; oracle = comparison in __int128. "
-                "non-trivial = value pairs on which the builtin ==, < or > on the promoted operands differs from the mathematical answer" % full_bits)
+                "non-trivial = value pairs on which the builtin ==, < or > on the promoted operands differs from the mathematical answer. "
+                "DIALECTS: the same enumeration built as C++17 and C++20 (quick: all pairs of 8-bit types exhaustively + boundary products). "
+                "128-BIT: in the GNU dialects (gnu++14, gnu++20) __int128 / unsigned __int128 paired with every type and each other over a boundary alphabet "
+                "(min, max, 0, +-1, +-2^k +-{0,1,5} for k up to 127), oracle = comparison of (sign, 128-bit magnitude)" % full_bits)
     ctx.assumptions += ["__int128 comparison is the reference", "bool, wchar_t, char16_t/char32_t are not in the type alphabet",
                         "wider-than-16-bit types are covered by the boundary alphabet, not exhaustively"]
-    ctx.note("constant-expression use: a generated TU with one static_assert per (function, ordered type pair, operand class pair with classes min/neg/zero/pos/max) = %d cases, compiled by g++ and clang++ at C++14 and C++17; every failing line is reported with its case id" % ctx.stats.get("constexpr_cases", 0))
+    ctx.note("constant-expression use: a generated TU with one static_assert per (function, ordered type pair, operand class pair with classes min/neg/zero/pos/max) = %d cases, compiled by g++ and clang++ at C++14, C++17 and C++20; every failing line is reported with its case id" % ctx.stats.get("constexpr_cases", 0))
 
 
 def replay(ctx, rec):
     if rec["args"] and rec["args"][0] == "--constexpr-case":
         constexpr_part(ctx, only=rec["args"][1])
+        constexpr_part(ctx, only=rec["args"][1], wide=True)
+        return
+    h = rec.get("harness") or ""
+    if h.startswith("c15-wide-"):
+        ctx.run_harness(build_wide(h[len("c15-wide-"):]), rec["args"], tag=h)
+        return
+    if h.startswith("c15-"):
+        ctx.run_harness(build(h[len("c15-"):]), rec["args"], tag=h)
         return
     binary = build()
     ctx.run_harness(binary, rec["args"], tag="c15")
